@@ -16,7 +16,7 @@ import (
 )
 
 var classes = []string{"inorder", "permuted", "dup", "foreign", "late", "never", "mixed", "close", "badframe", "garbage",
-	"refuse", "blackhole1", "blackholeK", "queuefull", "dupburst", "giveup", "crowd"}
+	"refuse", "blackhole1", "blackholeK", "queuefull", "dupburst", "giveup", "crowd", "sequel"}
 
 func pickInt(r *rand.Rand, xs ...int) int { return xs[r.Intn(len(xs))] }
 
@@ -51,6 +51,17 @@ func plan(seed int64, classes []string, per int, maxK int) []*scenario {
 			if sc.K > 8 {
 				sc.K = 8
 			}
+		case "sequel": // callers 1..K/2 get every answer twice at once; each then makes a second call (caller c+K/2) straight away,
+			// answered late: a receiver still holding the first call's channel must not reach the second call
+			if sc.K < 2 {
+				sc.K = 2
+			}
+			if sc.K > 32 {
+				sc.K = 32
+			}
+			sc.K -= sc.K % 2
+			sc.Sequel = sc.K / 2
+			sc.ReadMs = 100 // the framework's default ClientReadTimeout
 		case "refuse":
 			sc.Listen = "refuse"
 			sc.K = pickInt(r, 1, 4, 8)
@@ -135,6 +146,15 @@ func plan(seed int64, classes []string, per int, maxK int) []*scenario {
 				}
 			case "giveup":
 				rs = []reply{{sc.Eff[c] + 15, "own"}}
+			case "sequel":
+				if c <= sc.Sequel {
+					rs = []reply{{0, "own"}, {0, "own"}}
+					if r.Intn(3) == 0 {
+						rs = append(rs, reply{0, "own"})
+					}
+				} else {
+					rs = []reply{{15 + r.Intn(25), "own"}}
+				}
 			case "late":
 				if r.Intn(2) == 0 {
 					rs = []reply{{late(c), "own"}}
